@@ -44,7 +44,8 @@ MANIFEST = {
             "(source_variant_is_repaired, source_naming_rules, source_invalid_names_refused); invalid names are refused "
             "with the registry unchanged. Props/C19Src.v also: the control flow of registration.py's _register_* (order "
             "checks / duplicate test / write, map and version key), the shape of _validate_props, class_for_type's "
-            "exclusive category dispatch, _get_properties_dict's copy and the wrappers' unconditional extension_name= "
+            "exclusive category dispatch, _validate_ref_props' last-underscore rule, _get_properties_dict's copy and the "
+            "wrappers' unconditional extension_name= "
             "registration, read from the source by tr_regflow (fail-closed), are what the model transcribes (an "
             "interpreter of the source's step lists IS the model's register_* function). Custom types inherit: the class "
             "table each decorator builds (Model/RegistryBuilder.v, schema family's vocabulary, compared with the dumped "
